@@ -265,6 +265,12 @@ class SpecMixin:
                              "heap_before": self.heap, "heap_after": self.heap}
                     return py(("event", dummy), "event")
                 return py(("event", evs[k]), "event")
+            if nm == "evpos":
+                # evpos('name', k): position in the trace of the k-th event with that name (-1: none)
+                name = n.args[0].value
+                k = ast.literal_eval(n.args[1])
+                pos = [i for i, e in enumerate(self.trace) if e["name"] == name]
+                return TV("int", z3.IntVal(pos[k] if -len(pos) <= k < len(pos) else -1))
             if nm == "n_calls":
                 name = n.args[0].value if n.args else None
                 return TV("int", z3.IntVal(len([e for e in self.trace if name is None or e["name"] == name])))
